@@ -107,6 +107,33 @@ def rewrite_file(src, incdir):
     return len(edits), macro_sites
 
 
+def hoist_basic(d):
+    """Second rewrite (same purpose: CBMC constant propagation).  `struct type` keeps `issigned/iscomplex` of basic and enum types
+    in the member `basic` of its union `u`.  CBMC does not simplify a read of `t->u.basic.issigned` through a pointer when the byte
+    is non-zero (true), so every signedness test becomes a symbolic branch.  In the snapshot the member is moved out of the union
+    (`ubasic`, a sibling of `u`) and all accesses are renamed.  Semantics-preserving unless code type-puns `u.basic` with another
+    union member (it does not: basic/enum types never use the other members); guarded by the differential test run."""
+    import re
+    n = 0
+    h = os.path.join(d, 'cc.h')
+    s = open(h).read()
+    pat = re.compile(r'(\tunion \{\n)(\t\tstruct \{\n\t\t\tbool issigned, iscomplex;\n\t\t\} basic;\n)')
+    m = pat.search(s)
+    if not m:
+        raise RuntimeError('hoist_basic: struct type layout in cc.h not recognised')
+    s = s[:m.start()] + '\tstruct {\n\t\tbool issigned, iscomplex;\n\t} ubasic;  /* hoisted out of the union by the verification snapshot */\n' + m.group(1) + s[m.end():]
+    open(h, 'w').write(s)
+    for f in sorted(os.listdir(d)):
+        if f.endswith('.c') or f.endswith('.h'):
+            p = os.path.join(d, f)
+            t = open(p).read()
+            t2, k = re.subn(r'\bu\.basic\.', 'ubasic.', t)
+            if k:
+                open(p, 'w').write(t2)
+                n += k
+    return n
+
+
 def rewrite_dir(d, jobs=16):
     files = sorted(f for f in os.listdir(d) if f.endswith('.c'))
     with ThreadPoolExecutor(jobs) as ex:
